@@ -360,6 +360,25 @@ impl Encoder for Codec {
     }
 }
 
+/// Verification-only constructors / accessors (compiled only with `--cfg libp2p_verif`).
+#[cfg(libp2p_verif)]
+impl LocalStreamId {
+    pub(crate) fn verif_new(num: u64, role: Endpoint) -> Self {
+        Self { num, role }
+    }
+
+    pub(crate) fn verif_parts(&self) -> (u64, Endpoint) {
+        (self.num, self.role)
+    }
+}
+
+#[cfg(libp2p_verif)]
+impl RemoteStreamId {
+    pub(crate) fn verif_parts(&self) -> (u64, Endpoint) {
+        (self.num, self.role)
+    }
+}
+
 #[cfg(test)]
 mod tests {
     use super::*;
